@@ -64,6 +64,19 @@ var raceSubjects = []raceSubject{
 	{Name: "GoMetricsRegistry", Pkg: "metric_registry/gometrics", Type: "MetricRegistry", Setup: []string{
 		`x, _ := gometrics.NewGoMetricsMetricRegistry(gm.NewRegistry(), "", "p.", time.Second)`},
 		Skip: map[string]bool{"Stop": true}},
+	{Name: "QueueLimiter", Pkg: "limiter", Type: "QueueBlockingLimiter", Setup: []string{
+		`inner, _ := limiter.NewDefaultLimiter(limit.NewFixedLimit("f", 1, nil), 1000000000, 1000000000, 1000000000, 100, strategy.NewPreciseStrategy(1), limit.NoopLimitLogger{}, core.EmptyMetricRegistryInstance)`,
+		`x := limiter.NewQueueBlockingLimiterFromConfig(inner, limiter.QueueLimiterConfig{Ordering: limiter.OrderingFIFO, MaxBacklogSize: 10, MaxBacklogTimeout: time.Hour})`,
+		`l1, _ := x.Acquire(context.Background())`},
+		Extra: []string{"l1.(*limiter.QueueBlockingListener)|limiter|QueueBlockingListener"}},
+	{Name: "BlockingLimiter", Pkg: "limiter", Type: "BlockingLimiter", Setup: []string{
+		`inner, _ := limiter.NewDefaultLimiter(limit.NewFixedLimit("f", 1, nil), 1000000000, 1000000000, 1000000000, 100, strategy.NewPreciseStrategy(1), limit.NoopLimitLogger{}, core.EmptyMetricRegistryInstance)`,
+		`x := limiter.NewBlockingLimiter(inner, 0, nil)`,
+		`l1, _ := x.Acquire(context.Background())`},
+		Extra: []string{"l1.(*limiter.DelegateListener)|limiter|DelegateListener"}},
+	{Name: "DatadogRegistry", Pkg: "metric_registry/datadog", Type: "MetricRegistry", Setup: []string{
+		`x, _ := datadog.NewMetricRegistryWithClient(&dogstatsd.Client{}, "p.", time.Second)`},
+		Skip: map[string]bool{"Stop": true}},
 }
 
 // argExpr synthesises an argument expression for a parameter type; ok=false: not synthesisable.
@@ -180,12 +193,12 @@ func genC17(cfg *Config, overlay map[string][]byte, quick bool) (int, []string, 
 	}
 	var sb strings.Builder
 	sb.WriteString("//go:build verif\n\n// Code generated by gclverify (gen_c17.go) from /repo's current type information. DO NOT EDIT.\n\npackage zzverifc17\n\n")
-	sb.WriteString("import (\n\t\"context\"\n\t\"time\"\n\n\tgm \"github.com/rcrowley/go-metrics\"\n\n")
-	for _, im := range []string{"core", "limit", "limiter", "measurements", "strategy", "metric_registry/gometrics"} {
+	sb.WriteString("import (\n\t\"context\"\n\t\"time\"\n\n\tgm \"github.com/rcrowley/go-metrics\"\n\tdogstatsd \"github.com/DataDog/datadog-go/v5/statsd\"\n\n")
+	for _, im := range []string{"core", "limit", "limiter", "measurements", "strategy", "metric_registry/gometrics", "metric_registry/datadog"} {
 		fmt.Fprintf(&sb, "\t%q\n", modPath+"/"+im)
 	}
 	fmt.Fprintf(&sb, "\tverif %q\n)\n\n", modPath+"/zz_verifrt")
-	sb.WriteString("var _ = context.Background\nvar _ = time.Second\nvar _ core.Limit\nvar _ = limit.ProbeDisabled\nvar _ limiter.QueueOrdering\nvar _ measurements.MinimumMeasurement\nvar _ = strategy.PartitionTagName\nvar _ = gm.NewRegistry\nvar _ = gometrics.NewGoMetricsMetricRegistry\n\n")
+	sb.WriteString("var _ = context.Background\nvar _ = time.Second\nvar _ core.Limit\nvar _ = limit.ProbeDisabled\nvar _ limiter.QueueOrdering\nvar _ measurements.MinimumMeasurement\nvar _ = strategy.PartitionTagName\nvar _ = gm.NewRegistry\nvar _ = gometrics.NewGoMetricsMetricRegistry\nvar _ = datadog.NewMetricRegistryWithClient\nvar _ dogstatsd.Client\n\n")
 	var allSkipped []string
 	n := 0
 	for _, s := range raceSubjects {
